@@ -32,7 +32,7 @@ func cmdList(args []string) {
 	fs := flag.NewFlagSet("list", flag.ExitOnError)
 	repo := fs.String("repo", "/repo", "repository")
 	fs.Parse(args)
-	w, err := engine.Load(*repo, "./...")
+	w, err := engine.Load(*repo, engine.DefaultPkgs...)
 	if err != nil {
 		fmt.Fprintln(os.Stderr, err)
 		os.Exit(2)
@@ -53,6 +53,7 @@ func cmdFunc(args []string) {
 	covers := fs.Bool("covers", true, "reachability covers")
 	inl := fs.Int("inline", 0, "auto-inline depth")
 	jsonShape := fs.Bool("json", false, "assume JSON shape")
+	recv := fs.Bool("recv", true, "assume non-nil pointer receivers")
 	work := fs.String("work", "/verif/work/func", "work dir")
 	timeout := fs.Int("t", 10000, "per-obligation timeout ms")
 	pkgs := fs.String("pkgs", "./...", "package patterns (comma separated)")
@@ -60,7 +61,7 @@ func cmdFunc(args []string) {
 	model := fs.Bool("model", false, "print a model for failed obligations")
 	fs.Parse(args)
 	t0 := time.Now()
-	w, err := engine.Load(*repo, strings.Split(*pkgs, ",")...)
+	w, err := engine.Load(*repo, pkgList(*pkgs)...)
 	if err != nil {
 		fmt.Fprintln(os.Stderr, err)
 		os.Exit(2)
@@ -70,7 +71,7 @@ func cmdFunc(args []string) {
 		os.Exit(2)
 	}
 	fmt.Printf("loaded in %.1fs, %d functions, %d contracts\n", time.Since(t0).Seconds(), len(w.Funcs), len(w.Contracts))
-	opt := engine.Options{Safety: *safety, LockBalance: *locks, Covers: *covers, AutoInline: *inl, JSONShape: *jsonShape}
+	opt := engine.Options{Safety: *safety, LockBalance: *locks, Covers: *covers, AutoInline: *inl, JSONShape: *jsonShape, RecvNonNil: *recv}
 	for _, pat := range fs.Args() {
 		fns := w.FuncsMatching(pat)
 		if len(fns) == 0 {
@@ -113,4 +114,11 @@ func keys(m map[string]bool) []string {
 		out = append(out, k)
 	}
 	return out
+}
+
+func pkgList(s string) []string {
+	if s == "./..." {
+		return engine.DefaultPkgs
+	}
+	return strings.Split(s, ",")
 }
